@@ -65,6 +65,15 @@ func propSeedWord(id string) uint64 {
 	return h
 }
 
+// TestMain removes the process-wide scratch directory C30 makes (whichever entry point made it).
+func TestMain(m *testing.M) {
+	code := m.Run()
+	if c30RootsDir != "" {
+		os.RemoveAll(c30RootsDir)
+	}
+	os.Exit(code)
+}
+
 // TestSim is the entry point used by /verif/check. Configuration by environment:
 //
 //	VERIF_PROP      property id (required)
@@ -78,11 +87,6 @@ func propSeedWord(id string) uint64 {
 //	VERIF_KNOWN     known_findings.json
 //	VERIF_REPLAY    replay file to execute instead of searching
 func TestSim(t *testing.T) {
-	defer func() {
-		if c30RootsDir != "" {
-			os.RemoveAll(c30RootsDir)
-		}
-	}()
 	id := os.Getenv("VERIF_PROP")
 	if id == "" {
 		t.Skip("VERIF_PROP not set")
